@@ -9,6 +9,8 @@
 //   trig <a1> <b1> <a2> <b2> <c>        solve(a1 sin x + b1 cos x + a2 sin 2x + b2 cos 2x + c, x)
 //   trigt <a> <c>                       solve(a tan x + c, x)
 //   trigR <a1> <b1> <c>                 solve(a1 sin x + b1 cos x + c, x, reals)
+//   trign <a> <b> <cre> <cim>           solve(a sin x + b cos x + (cre + cim I), x): the non-real solution family
+//                                       (|c| > sqrt(a^2+b^2) or complex c; exp(ix) off the unit circle)
 //
 // Output: canonical dump (sexp.h) of the returned set; for poly/rat/rat2 followed by ` @ ` and the dump of the
 // complex-domain solution of the numerator polynomial N (poly: p itself; rat: n1; rat2: n1*d2+n2*d1), which the
@@ -591,6 +593,74 @@ static void check_trig(const RCP<const Set> &sol, const std::vector<cld> &P, std
     (void)PI;
 }
 
+// ------------------------------------------------------------------ trig oracle, non-real family
+// a sin x + b cos x + c = 0 with complex c.  Every returned ImageSet member n = -1, 0, 1 is substituted back into
+// the *equation object* (eval_complex_double, tolerance 1e-9 * scale) -> key trig-nonreal-value; completeness
+// against the two analytic families x = -i log y,  y = (-i c +- sqrt(a^2 + b^2 - c^2)) / (a + i b)
+// -> key trig-nonreal-missing.  The keys are distinct from trig-missing / trig-spurious (known findings F4 / F6).
+static void check_trig_nonreal(const RCP<const Set> &sol, const RCP<const Basic> &f, const RCP<const Symbol> &x,
+                               cld A, cld B, cld C, std::string &oracle)
+{
+    std::vector<RCP<const Set>> parts;
+    if (is_a<Union>(*sol))
+        for (auto &c : down_cast<const Union &>(*sol).get_container())
+            parts.push_back(c);
+    else
+        parts.push_back(sol);
+    struct Fam { cld theta, period; };
+    std::vector<Fam> fams;
+    for (auto &p : parts) {
+        if (!is_a<ImageSet>(*p)) {
+            oracle = "FAIL:trig-nonreal-shape:" + p->__str__().substr(0, 100);
+            return;
+        }
+        auto &im = down_cast<const ImageSet &>(*p);
+        cld vals[3];
+        for (int n = -1; n <= 1; n++) {
+            map_basic_basic d;
+            d[im.get_symbol()] = integer(n);
+            cld xv, res;
+            try {
+                xv = num_value(im.get_expr()->subs(d));
+                map_basic_basic dx;
+                dx[x] = complex_double(std::complex<double>((double)xv.real(), (double)xv.imag()));
+                res = cld(eval_complex_double(*f->subs(dx)));
+            } catch (std::exception &e) {
+                oracle = std::string("FAIL:trig-nonreal-eval:") + e.what();
+                return;
+            }
+            vals[n + 1] = xv;
+            long double scale = 1 + std::abs(A) * std::abs(std::sin(xv)) + std::abs(B) * std::abs(std::cos(xv)) + std::abs(C);
+            if (!(std::abs(res) <= 1e-9L * scale)) {
+                oracle = "FAIL:trig-nonreal-value:member n = " + tostr(n) + ", x = " + cstr(xv) + " of "
+                         + p->__str__().substr(0, 70) + " gives residual " + cstr(res);
+                return;
+            }
+        }
+        fams.push_back(Fam{vals[1], vals[2] - vals[1]});
+    }
+    cld disc = std::sqrt(A * A + B * B - C * C), den = A + cld(0, 1) * B, mic = cld(0, -1) * C;
+    cld ys[2] = {(mic + disc) / den, (mic - disc) / den};
+    int ny = std::abs(disc) < 1e-12L ? 1 : 2;
+    for (int k = 0; k < ny; k++) {
+        if (std::abs(ys[k]) < 1e-12L)
+            continue;
+        cld xk = cld(0, -1) * std::log(ys[k]);
+        bool found = false;
+        for (auto &fm : fams) {
+            if (std::abs(fm.period) < 1e-9L)
+                continue;
+            cld q = (xk - fm.theta) / fm.period;
+            if (std::fabs(q.imag()) < 1e-7L && std::fabs(q.real() - std::round(q.real())) < 1e-7L)
+                found = true;
+        }
+        if (!found) {
+            oracle = "FAIL:trig-nonreal-missing:x = " + cstr(xk) + " (+ 2 pi n) solves the equation but is in no returned family";
+            return;
+        }
+    }
+}
+
 // ------------------------------------------------------------------ run
 static std::string dump_elems_rat(const vec_basic &v, std::vector<Fr> &out, bool &allrat)
 {
@@ -765,6 +835,20 @@ std::string hx_run(const std::string &op, std::string &oracle)
         }
         stat("lin:n" + tostr(n));
         return out;
+    }
+    if (t[0] == "trign") {
+        Fr a = Fr::parse(t.at(1)), b = Fr::parse(t.at(2)), cre = Fr::parse(t.at(3)), cim = Fr::parse(t.at(4));
+        RCP<const Basic> cnum = cim.zero() ? (RCP<const Basic>)mk_num(cre)
+                                           : (RCP<const Basic>)Complex::from_two_nums(*mk_num(cre), *mk_num(cim));
+        vec_basic terms;
+        terms.push_back(mul(mk_num(a), sin(x)));
+        terms.push_back(mul(mk_num(b), cos(x)));
+        terms.push_back(cnum);
+        RCP<const Basic> f = add(terms);
+        RCP<const Set> sol = solve(f, x);
+        stat("trign:" + type_code_name(sol->get_type_code()));
+        check_trig_nonreal(sol, f, x, cld(a.ld(), 0), cld(b.ld(), 0), cld(cre.ld(), cim.ld()), oracle);
+        return vsexp::dump(*sol);
     }
     if (t[0] == "trig" || t[0] == "trigt" || t[0] == "trigR") {
         RCP<const Basic> f;
@@ -1135,6 +1219,57 @@ void hx_gen(Rng &r, const std::string &tier)
         }
         emit(std::string(eqform ? "lineq " : "lin ") + tostr(n) + " " + join(rows, ";") + " " + join(bs, ","),
              std::string(eqform ? "lineq:" : "lin:") + fams[fam]);
+    }
+    // --- trigonometric equations without real solutions: exp(ix) lies off the unit circle, so the modulus part
+    // log|y| of the inversion x = arg y - i log|y| + 2 n pi matters (for real solutions it is log 1 = 0).
+    // |a| != |b| in the mixed cases keeps atan2(im, re) symbolic (im/re = a/b is not in the tangent table), away from
+    // the quadrant defect F4.
+    {
+        int n_trign = th ? 300 : 40;
+        for (int i = 0; i < n_trign; i++) {
+            int kind = (int)r.below(10);
+            Fr a(0), b(0), cre(0), cim(0);
+            std::string tag;
+            auto beyond = [&](const Fr &m2) {
+                // a rational c with c^2 > m2 (= a^2 + b^2), either sign
+                for (;;) {
+                    Fr c = rnd_nz(r, 9, 3);
+                    if ((c * c - m2).sgn() > 0)
+                        return c;
+                }
+            };
+            if (kind < 3) {
+                b = rnd_nz(r, 4, 2);
+                cre = beyond(b * b);
+                tag = "trign:cos-real-rhs";
+            } else if (kind < 6) {
+                a = rnd_nz(r, 4, 2);
+                cre = beyond(a * a);
+                tag = "trign:sin-real-rhs";
+            } else if (kind < 8) {
+                if (r.coin())
+                    a = rnd_nz(r, 4, 2);
+                else
+                    b = rnd_nz(r, 4, 2);
+                cre = rnd_rat(r, 4, 2);
+                cim = rnd_nz(r, 4, 2);
+                tag = "trign:complex-rhs";
+            } else {
+                do {
+                    a = Fr(r.range(-3, 3));
+                    b = Fr(r.range(-3, 3));
+                } while (a.zero() || b.zero() || (a * a - b * b).zero());
+                if (kind == 8) {
+                    cre = beyond(a * a + b * b);
+                    tag = "trign:sin-cos-real-rhs";
+                } else {
+                    cre = rnd_rat(r, 3, 2);
+                    cim = rnd_nz(r, 3, 2);
+                    tag = "trign:sin-cos-complex-rhs";
+                }
+            }
+            emit("trign " + a.str() + " " + b.str() + " " + cre.str() + " " + cim.str(), tag);
+        }
     }
     // --- linear trigonometric equations (oracle only)
     for (int i = 0; i < n_trig; i++) {
